@@ -119,6 +119,15 @@ func (g *Gen) binopInt(op token.Token, x, y Term, ii IntInfo, at, bt, rt types.T
 		if cv, ok := parseIntLit(y.S); ok && cv.IsInt64() && cv.Int64() < 63 {
 			return arith(app("*", x.S, pow2(int(cv.Int64())).String()))
 		}
+		// constant shifted by a variable count (mask construction `1<<(6*i) - 1`): case table over the count;
+		// a count of 62 or more leaves the value unconstrained (sound: more behaviours)
+		if _, ok := parseIntLit(x.S); ok {
+			t := g.fresh("shl", SInt).S
+			for k := 61; k >= 0; k-- {
+				t = fmt.Sprintf("(ite (= %s %d) %s %s)", y.S, k, app("*", x.S, pow2(k).String()), t)
+			}
+			return arith(t)
+		}
 	case token.SHR:
 		if cv, ok := parseIntLit(y.S); ok && cv.IsInt64() && cv.Int64() < 63 {
 			return mk(app("div", x.S, pow2(int(cv.Int64())).String()))
@@ -142,6 +151,32 @@ func (g *Gen) binopInt(op token.Token, x, y Term, ii IntInfo, at, bt, rt types.T
 				if r, ok := intBitop(op.String(), y.S, cv); ok {
 					return mk(r)
 				}
+			}
+		}
+	}
+	// bit operation with a VARIABLE low mask 2^k-1 (k = 1..31) as one operand: exact case table over the mask
+	// value; for any other value of that operand the result is left unconstrained (sound for proving)
+	switch op {
+	case token.AND, token.OR, token.AND_NOT:
+		if _, lit := parseIntLit(x.S); !lit || op != token.AND_NOT {
+			v, m := x.S, y.S
+			if _, lit := parseIntLit(x.S); lit {
+				v, m = y.S, x.S
+			}
+			t := g.fresh("bitop", SInt).S
+			okAll := true
+			for k := 31; k >= 1; k-- {
+				mask := new(big.Int).Sub(pow2(k), big.NewInt(1))
+				r, ok := intBitop(op.String(), v, mask)
+				if !ok {
+					okAll = false
+					break
+				}
+				t = fmt.Sprintf("(ite (= %s %s) %s %s)", m, mask.String(), r, t)
+			}
+			if okAll {
+				g.noteAssumption("bit operation with a variable operand in " + g.fnName() + ": exact when the operand is a low mask 2^k-1 (k=1..31), otherwise the result is unconstrained")
+				return mk(t)
 			}
 		}
 	}
